@@ -499,4 +499,75 @@ theorem scaleInt_down (S : IntTy) (hS : 1 ≤ S.bits) (k : Int) (hk : k < 0) (ρ
     IntTy.wrap_id hb hw, hne, hov, ite_false]
   exact arith_ok hb (tdiv_pos_inRange (promote_inRange hS hv) hpos)
 
+/-! ## how the wrapper dispatch unfolds for `scaled_integer<built-in>` operands -/
+
+/-- the scaled number `(rep type, exponent, radix, rep value)` -/
+abbrev sc (T : IntTy) (e : Int) (ρ : Nat) (v : Int) : Num := (.sc (.int T) e ρ, v)
+
+/-- the result of a representation operator, wrapped at exponent `e` -/
+def wrapAt (e : Int) (ρ : Nat) (r : Res TV) : Res Num := r.map (fun v => sc v.1 e ρ v.2)
+
+@[simp] theorem wrapAt_ok (e : Int) (ρ : Nat) (v : TV) : wrapAt e ρ (.ok v) = .ok (sc v.1 e ρ v.2) := rfl
+
+theorem bin_sc_sc (op : BinOp) (L R : IntTy) (eL eR : Int) (ρ : Nat) (l r : Int) :
+    Layered.bin op (sc L eL ρ l) (sc R eR ρ r)
+      = match op with
+        | .shl | .shr => shiftWith (ops 0) op (sc L eL ρ l) (sc R eR ρ r)
+        | _ => (Scaled.binOp intOps op ρ ⟨(.int L, l), eL⟩ ⟨(.int R, r), eR⟩).map (wrapSc ρ) := by
+  cases op <;> simp [Layered.bin, level, Ty.depth, ops, binWith, balance, binHeads]
+
+/-- operators that are applied to the representations directly -/
+theorem binOp_direct (op : BinOp) (L R : IntTy) (eL eR : Int) (ρ : Nat) (l r : Int)
+    (h : eL = eR ∨ Scaled.isZeroDegree op = false) :
+    (Scaled.binOp intOps op ρ ⟨(.int L, l), eL⟩ ⟨(.int R, r), eR⟩).map (wrapSc ρ)
+      = wrapAt (Scaled.resultExp op eL eR) ρ (cBin op (L, l) (R, r)) := by
+  have h' : eL = eR ∨ (!Scaled.isZeroDegree op) = true := by
+    rcases h with h | h
+    · exact Or.inl h
+    · right; simp [h]
+  simp only [Scaled.binOp, h', ite_true, intOps, liftTV]
+  cases cBin op (L, l) (R, r) <;> rfl
+
+/-- `+ - & | ^` between different exponents: both operands are scaled to the smaller exponent -/
+theorem binOp_aligned (op : BinOp) (L R : IntTy) (eL eR : Int) (ρ : Nat) (l r : Int)
+    (hne : eL ≠ eR) (hz : Scaled.isZeroDegree op = true) :
+    (Scaled.binOp intOps op ρ ⟨(.int L, l), eL⟩ ⟨(.int R, r), eR⟩).map (wrapSc ρ)
+      = (scaleInt (eL - min eL eR) ρ (L, l) >>= fun a =>
+         scaleInt (eR - min eL eR) ρ (R, r) >>= fun b =>
+         wrapAt (min eL eR) ρ (cBin op a b)) := by
+  have h' : ¬ (eL = eR ∨ (!Scaled.isZeroDegree op) = true) := by simp [hne, hz]
+  simp only [Scaled.binOp, h', ite_false, intOps, liftTV]
+  cases scaleInt (eL - min eL eR) ρ (L, l) <;> try rfl
+  cases scaleInt (eR - min eL eR) ρ (R, r) <;> try rfl
+  rename_i a b
+  obtain ⟨aT, av⟩ := a; obtain ⟨bT, bv⟩ := b
+  show (Res.map _ (Res.bind (Res.map _ (cBin op (aT, av) (bT, bv))) _)) = (wrapAt _ _ (cBin op (aT, av) (bT, bv)))
+  cases cBin op (aT, av) (bT, bv) <;> rfl
+
+theorem cmp_sc_sc (op : CmpOp) (L R : IntTy) (eL eR : Int) (ρ : Nat) (l r : Int) :
+    Layered.cmp op (sc L eL ρ l) (sc R eR ρ r)
+      = Scaled.cmp intOps op ρ ⟨(.int L, l), eL⟩ ⟨(.int R, r), eR⟩ := by
+  simp [Layered.cmp, level, Ty.depth, ops, cmpWith, balance, cmpHeads]
+
+theorem cast_sc_sc (D S : IntTy) (eD eS : Int) (ρ : Nat) (v : Int) :
+    Layered.cast (.sc (.int D) eD ρ) (sc S eS ρ v)
+      = (Scaled.convert intOps ρ ⟨(.int S, v), eS⟩ (.int D) eD).map (wrapSc ρ) := by
+  simp [Layered.cast, Ty.depth, ops, castWith]
+
+theorem neg_sc (L : IntTy) (e : Int) (ρ : Nat) (l : Int) :
+    Layered.un .neg (sc L e ρ l) = wrapAt e ρ (cNeg (L, l)) := by
+  simp only [Layered.un, unWith, unRep, Ty.depth, ops, intOps, liftTV, wrapAt]
+  cases cNeg (L, l) <;> rfl
+
+/-- conversion of a scaled integer with a built-in representation -/
+theorem convert_eq (D S : IntTy) (eD eS : Int) (ρ : Nat) (v : Int) :
+    (Scaled.convert intOps ρ ⟨(.int S, v), eS⟩ (.int D) eD).map (wrapSc ρ)
+      = if eS = eD then .ok (sc D eD ρ (D.wrap v))
+        else scaleInt (eS - eD) ρ (S, v) >>= fun a => .ok (sc D eD ρ (D.wrap a.2)) := by
+  unfold Scaled.convert
+  split
+  · rfl
+  · simp only [intOps, liftTV]
+    cases scaleInt (eS - eD) ρ (S, v) <;> rfl
+
 end Cnl.ScaledP
